@@ -47,6 +47,9 @@ CHECKS = {
  "C11": ("Exhaustive exploration of (typed document, serialisation layout, loader) states: documents of depth <= 2 over a scalar alphabet (keyword-looking / numeric-looking / unicode / quoted strings, boundary ints, floats, bools, null) in maps (both key orders), lists and nestings x 13 layouts (JSON compact / pretty, flow YAML and block YAML indent 2 / 4 in plain-where-safe, single and double quoting, quoted keys) x the three loaders (validate, test, run_checks); per state a literal-equality rule, one type probe per node and the value dumped by a deliberately failing root clause are compared with the source document; plus the complete table of 21 intrinsic tags x {scalar, sequence, nested tag} payload x {map value, list element, top level} x loader against the long form, and a rejection set (non-string keys, truncated, unterminated, empty, comment-only, tab-indented input).",
          "Trusted base: the harness YAML / JSON writers (strings that a YAML 1.1 / 1.2 / FromStr reader could type otherwise are always quoted), the report reader. Anchors / aliases, multi-line scalars and empty plain scalars are outside the property's stated serialisations.",
          "exhaustive enumeration of documents x serialisations x loaders with literal-equality, type-probe and value-dump oracles; exhaustive tag table"),
+ "C10": ("Exhaustive exploration of (function-free program, document, layout) states: single-clause programs over the query alphabet with literal and query right-hand sides and query blocks, plus a subset of the composite BFS universe x documents x 29 layouts written by the harness's own position-tracking writer (JSON compact / pretty 2 / 4, flow one-line / wrapped, block YAML indent 2 / 4 x leading --- x comment lines x blank lines, single / double quoting, leading blank lines); for every check of validate --structured -o json each {path, value} pair must resolve in the source document to exactly that value, an unresolved check's traversed_to must be a point where an independent walk of the query gets stuck, and every Path=<p>[L:l,C:c] naming a scalar must carry the line / column at which the writer put that scalar.",
+         "Trusted base: the position-tracking writer, the JSON-pointer resolver, the independent stuck-point walk (uses the reference interpreter only to evaluate filters). Quick runs a rotating third of the layouts per (program, document) pair.",
+         "exhaustive enumeration of programs x documents x layouts; reported pointers, values and positions checked against the generated source text"),
 }
 PENDING_REASON = "check under construction in this round (design in DESIGN.md section 5); not claimed until its quick tier runs clean on the unchanged tree"
 ALL = ["C%02d" % i for i in range(1, 20)]
